@@ -1,5 +1,4 @@
 package main
 
-func c30()     {}
 func c29()     {}
 func c29Host() {}
